@@ -462,9 +462,8 @@ def model_queries(ops, work):
         if op.fmt == "mfp":
             lines.append("mfp " + mp)
             idx.append((op.id, "mfp"))
-        if op.fmt in ("mod", "stm") and (op.ctxins if op.ctxins is not None else op.envins) != b"":
-            # what the song-only loaders should open for every sample name (instrument order);
-            # an empty instrument path is left to the oracle (see finding open:*:empty-instrument-path)
+        if op.fmt in ("mod", "stm"):
+            # what the song-only loaders should open for every sample name (instrument order)
             ins = op.ctxins if op.ctxins is not None else op.envins
             dirname = op.modpath[:op.modpath.rfind(b"/") + 1] if op.entry == "path" else None
             d1 = "none" if ins is None else "%s %s" % (hx(ins), listing(ins))
@@ -493,7 +492,7 @@ def py_decision(op, work, min_header):
 def run_opens(ck, only_round=None, only_op=None, verbose=False):
     quick = ck.tier == "quick"
     exe = vlib.build_harness("c10_opens", ["c10_opens.c"], extra=EXTRA)
-    rounds = 1 if quick else 6
+    rounds = 1 if quick else 16
     stats = {}
 
     def bump(k, n=1):
